@@ -392,6 +392,10 @@ def run(ctx):
         rv = pth.events[-1].data.get("value")
         if rv is None:
             continue
+        # handing back a caller-supplied fallback (a parameter other than the
+        # looked-up id, e.g. `default=`) is not returning a node of the graph
+        if isinstance(rv, ast.Name) and rv.id in look.params and rv.id != pid and not ctx.flow.defs(look).of(rv.id):
+            continue
         n_ret += 1
         x = ctx.norm.xexpr(look, rv)
         rt = ast.unparse(x)
